@@ -104,6 +104,9 @@ func (dev *RoachDevice) samplePacket() error {
 		return err
 	}
 	_, _, err := dev.conn.ReadFromUDP(p)
+	if err != nil {
+		return err // nothing was read (e.g. no data within the deadline): there is no packet to parse
+	}
 	header, _ := parsePacket(p)
 	dev.nextS = FrameIndex(header.Nsamp) + FrameIndex(header.Sampnum)
 	dev.nchan = int(header.Nchan)
